@@ -146,7 +146,7 @@ def shard_long_params(args):
     tier, seed, idx = args
     acc = Acc(seed=seed)
     codes = list(CODES)
-    for n in range(3, 25):
+    for n in list(range(3, 25)) + [31, 32, 33, 34, 40, 64, 100]:
         for rot in range(idx, len(codes), 4):
             for stride in (1, 3, 7):
                 ps = [codes[(rot + j * stride) % len(codes)] for j in range(n)]
